@@ -68,6 +68,31 @@ def wTermsOK (r c : T) (tips : Bool) (ref comp common : List Rat) : Bool :=
 def wSame (r c : T) (tips : Bool) : Bool :=
   sameSplits r c tips && (commonDiffs (U tips r) (U tips c)).all (· == 0)
 
+/- ## A branch without length has no length: it counts 0
+
+  The code keeps "no length" as the marker -1 (`NIL_LENGTH`).  The property speaks of lengths
+  and length differences; the Spec therefore reads the weighted terms on the trees in which an
+  absent length has been replaced by 0 (the documented default of the distance matrix,
+  `EdgeD.lenOr0`), never on the marker. -/
+
+mutual
+def _root_.Gotree.T.zeroLens : T → T
+  | .node d p k => .node d p (zeroLensL k)
+def _root_.Gotree.zeroLensL : Kids → Kids
+  | [] => []
+  | (e, t) :: r => ({ e with len := e.lenOr0 }, t.zeroLens) :: zeroLensL r
+end
+
+/-- Spec of the weighted record, absent length = 0 -/
+def wTermsOK0 (r c : T) (tips : Bool) (ref comp common : List Rat) : Bool :=
+  wTermsOK r.zeroLens c.zeroLens tips ref comp common
+
+/-- weighted identity, absent length = 0 -/
+def wSame0 (r c : T) (tips : Bool) : Bool := wSame r.zeroLens c.zeroLens tips
+
+/-- some branch that counts has no length -/
+def lensAbsent (tips : Bool) (t : T) : Bool := !lensPresent tips t
+
 /- ## The hypotheses in semantic form
 
   `good t` says of the split list what `unrootedOK t` says of the shape (the
